@@ -113,7 +113,7 @@ def vec_close(py, exact):
 
 def decode(case):
     """case -> integer matrix as list of lists"""
-    if case[0] in ('M', 'Q'):
+    if case[0] in ('M', 'Q', 'B'):
         return [list(r) for r in case[1]]
     _, n, directed, base, code = case
     cells = [(i, j) for i in range(n) for j in range(n) if (i != j if directed else i < j)]
@@ -249,6 +249,66 @@ def rational_cases(rs, count, tier):
 NEAR_DEN = 2 ** 40
 
 
+def lollipop(c, p):
+    """clique on c nodes with a path of p further nodes attached (undirected): astronomically many walks, large diameter"""
+    n = c + p
+    A = np.zeros((n, n), dtype=int)
+    A[:c, :c] = 1
+    np.fill_diagonal(A, 0)
+    for x in range(c - 1, n - 1):
+        A[x, x + 1] = A[x + 1, x] = 1
+    return A
+
+
+def big_cases(rs, tier):
+    """large binary graphs ('B', matrix): judged by an independent float Brandes oracle and by the cross-routine identities;
+    the algorithm models are run for n <= 32 only (the definition-level model is O(n^4))"""
+    out = []
+    lol = [(50, 185), (12, 120), (5, 20), (6, 24)] if tier == 'quick' else \
+        [(50, 185), (12, 120), (60, 180), (30, 150), (80, 160), (5, 20), (6, 24), (8, 22), (4, 28), (20, 200)]
+    for cp in lol:
+        out.append(('B', tuple(tuple(int(x) for x in r) for r in lollipop(*cp)), 'lollipop'))
+    for _ in range(2 if tier == 'quick' else 14):
+        n = int(rs.randint(60, 200))
+        A = rand_graph(rs, n, float(rs.choice([1.5, 3, 6])) / n, bool(rs.rand() < .5))
+        out.append(('B', tuple(tuple(int(x) for x in r) for r in A), 'rand-big'))
+    for _ in range(3 if tier == 'quick' else 20):
+        n = int(rs.randint(16, 31))
+        A = rand_graph(rs, n, float(rs.choice([2, 4])) / n, bool(rs.rand() < .5))
+        out.append(('B', tuple(tuple(int(x) for x in r) for r in A), 'rand-mid'))
+    return out
+
+
+def brandes_float(L):
+    """independent Brandes (BFS, floats) for large binary graphs -> hop distances, BC, EBC"""
+    n = len(L)
+    nbr = [[j for j in range(n) if L[i][j] != 0 and j != i] for i in range(n)]
+    BC = [0.0] * n
+    EBC = [[0.0] * n for _ in range(n)]
+    dist = []
+    for s in range(n):
+        d = [None] * n; d[s] = 0
+        sig = [0] * n; sig[s] = 1
+        order = [s]; preds = [[] for _ in range(n)]
+        k = 0
+        while k < len(order):
+            u = order[k]; k += 1
+            for w in nbr[u]:
+                if d[w] is None:
+                    d[w] = d[u] + 1; order.append(w)
+                if d[w] == d[u] + 1:
+                    sig[w] += sig[u]; preds[w].append(u)
+        dep = [0.0] * n
+        for w in reversed(order):
+            for v in preds[w]:
+                c = sig[v] / sig[w] * (1.0 + dep[w])
+                dep[v] += c; EBC[v][w] += c
+            if w != s:
+                BC[w] += dep[w]
+        dist.append(d)
+    return dist, BC, EBC
+
+
 def near_tie_cases(rs, count):
     """lengths k/4 perturbed by j*2^-e (e = 30..40, exact in floats, common denominator 2^40): routes whose totals differ by
     less than any reasonable float tolerance although the exact oracle says they are NOT ties, next to exactly tied
@@ -282,7 +342,7 @@ def near_tie_cases(rs, count):
     return out
 
 
-DT_BIN = ['int64', 'int32', 'bool', 'uint8', 'float64']
+DT_BIN = ['int64', 'int32', 'bool', 'uint8', 'float32', 'float64']
 DT_INT = ['int64', 'float64']
 ORDERS = ['C', 'F', 'T', 'V']
 
@@ -350,8 +410,11 @@ def run_chunk(arg):
         if case[0] == 'R':
             rep = (case[2], case[3]); case = case[1]
         mal = case[0] == 'X'
+        big = case[0] == 'B'
         L = decode(('M', case[1]) if mal else case)
         n = len(L)
+        if big:
+            cnt('big:' + case[2])
         den = case[2] if case[0] == 'Q' else 1
         A = np.array(L, dtype=float).reshape(n, n) / den      # exact: dyadic denominators
         binary = den == 1 and all(x in (0, 1) for r in L for x in r)
@@ -371,8 +434,11 @@ def run_chunk(arg):
             Akeep = A0.copy()
             st, o = call(getattr(bct, f), A0, t=5.0, retry=10)   # a timeout is a verdict here: re-tried once with 10x the budget
             cnt('calls:' + f); cnt(st + ':' + f)
-            if st == 'timeout':
-                cnt('timeouts'); continue
+            if st == 'timeout':      # survived the 10x retry: the routine does not return on an in-domain input
+                cnt('timeouts')
+                R['viol'].append((f, 'does-not-return', {'L': L, 'den': den, 'dtype': dtype, 'order': order, 'budget_s': 50.0},
+                                  {'routine': f, 'binary': binary, 'dtype': dtype, 'order': order, 'large': n >= 100}))
+                continue
             if st == 'exc':
                 outs[f] = ('exc', o)
                 continue
@@ -383,9 +449,12 @@ def run_chunk(arg):
             if A0.dtype != Akeep.dtype or not np.array_equal(A0, Akeep):
                 R['viol'].append((f, 'input-modified', {'L': L, 'den': den, 'dtype': dtype, 'order': order}, {'routine': f}))
         if not mal:
-            dist, sig, BC, EBC = brute(L if den == 1 else [[Fr(x, den) for x in r] for r in L])
+            if big:
+                dist, BC, EBC = brandes_float(L); sig = None
+            else:
+                dist, sig, BC, EBC = brute(L if den == 1 else [[Fr(x, den) for x in r] for r in L])
             disconnected = any(dist[s][t] is None for s in range(n) for t in range(n))
-            ties = any(sig[s][t] > 1 for s in range(n) for t in range(n))
+            ties = big or any(sig[s][t] > 1 for s in range(n) for t in range(n))
             unreach_per_src = max([sum(1 for t in range(n) if dist[s][t] is None) for s in range(n)] or [0])
             cnt('disconnected' if disconnected else 'connected')
             if ties:
@@ -393,7 +462,7 @@ def run_chunk(arg):
             nontriv = any(b != 0 for b in BC)
             if nontriv:
                 R['keys'].append(digest(L))
-                if len(R['samples']) < 2 and ties and disconnected:
+                if len(R['samples']) < 2 and ties and disconnected and n <= 9:
                     R['samples'].append({'L': L, 'den': den, 'dtype': dtype, 'order': order, 'BC': [str(x) for x in BC], 'sigma': sig})
             cond0 = {'disconnected': disconnected, 'directed': directed, 'binary': binary, 'dtype': dtype, 'order': order, 'max_unreachable_from_a_source': min(unreach_per_src, 2)}
             ebc_flat = [x for r in EBC for x in r]
@@ -426,9 +495,11 @@ def run_chunk(arg):
             dist = sig = BC = EBC = None
         if lean_ok:
             ms = ','.join(str(int(x)) for r in L for x in r) + ('' if den == 1 else ' den=%d' % den)
-            if not mal:
+            if not mal and not big:
                 lines.append('spec n=%d L=%s' % (n, ms)); meta.append(('spec', (L, den, dtype, order), (dist, sig, BC, EBC), None))
-            for f in routines:     # every routine has its own model line (betweenness_wei: `betweennessWei`, not a projection of the edge model)
+            if big:
+                dist = sig = BC = EBC = None      # float oracle: no exact comparison with the model
+            for f in (routines if (not big or n <= 32) else []):     # every routine has its own model line (betweenness_wei: `betweennessWei`, not a projection of the edge model)
                 if f in outs:
                     lines.append('%s n=%d L=%s' % (f, n, ms)); meta.append((f, (L, den, dtype, order), (dist, sig, BC, EBC), outs[f]))
     if lean_ok and lines:
@@ -548,15 +619,15 @@ def main():
                       'structured tie-rich graphs (paths, cycles, stars, grids, cube, complete bipartite, diamond chains), random n=5..9 graphs '
                       '(lengths 1..3, densities .12-.85, isolated nodes / two components / sources and sinks forced in half of them), dyadic rational '
                       'lengths k/den, den in {2,4,8} (exact in floats; exhaustive small graphs with lengths {1/den, 2/den}, random n=4..9 with halves/wholes, '
-                      'any k/den <= 2, mixed short/long), given to the weighted routines as numerators/den and to the model as numerators + den; near ties: lengths k/4 + j*2^-e, e=30..40 '
-                      '(den 2^40, exact in floats) next to exact ties; representation axis on 40% of the cases: dtype (int64/int32/bool/uint8/float64 for binary, '
+                      'any k/den <= 2, mixed short/long), given to the weighted routines as numerators/den and to the model as numerators + den; large binary graphs (lollipops K_c+P_p up to n=235, sparse random n=60..200, n=16..30; float Brandes oracle + cross-routine identities, models for n<=32); near ties: lengths k/4 + j*2^-e, e=30..40 '
+                      '(den 2^40, exact in floats) next to exact ties; representation axis on 40% of the cases: dtype (int64/int32/bool/uint8/float32/float64 for binary, '
                       'int64/float64 for integer lengths) and memory order (C, Fortran, transposed view, strided view) of the same logical matrix; every case is run '
                       'through all applicable routines. non-trivial = distinct matrix on which some node has non-zero betweenness '
                       '(at least one shortest path with an interior node)')
     ck.assumptions += ['connection lengths are positive integers, 0 = no connection, empty diagonal (the weighted routines take a connection-length matrix)',
                        'binary routines are only given binary matrices; the weighted routines are given binary, {1,2,3}-length and dyadic rational-length matrices '
                        '(non-dyadic rationals are excluded: float sums of thirds need not tie exactly)',
-                       'per routine: at least one normal return and at most max(2, 1%) watchdog timeouts, otherwise the run is reported as broken',
+                       'a call that times out at 5 s is re-tried once with 50 s; a second timeout is a does-not-return violation with the input as replay',
                        'floats of the real routines are compared with exact rationals at 1e-9 relative to max(1,|x|)',
                        'results are functions of the argument values: after any earlier call g(A) and an in-place edit of A, f(A) must equal f(copy of A) bit for bit']
     ok = ck.lean_gate(['BctVerif.Props.C08'], extra_modules=['BctVerif.Model.Between'])
@@ -583,7 +654,7 @@ def main():
         for n in (2, 3, 4, 5):
             cases += enum_cases(n, False, 2) + enum_cases(n, False, 3)
         ck.cov['exhaustive'] = True
-        cases += structured() + random_cases(rs, 6000) + rational_cases(rs, 6000, 'thorough') + near_tie_cases(rs, 4000) + malformed_cases(rs, 400)
+        cases += structured() + random_cases(rs, 6000) + rational_cases(rs, 6000, 'thorough') + near_tie_cases(rs, 4000) + big_cases(rs, 'thorough') + malformed_cases(rs, 400)
     else:
         cases = []
         for n in (1, 2, 3):
@@ -592,7 +663,7 @@ def main():
             cases += enum_cases(n, False, 2) + enum_cases(n, False, 3)
         cases += enum_cases(4, True, 2) + enum_cases(4, True, 3, rs, 3000)
         cases += enum_cases(5, False, 2) + enum_cases(5, False, 3, rs, 1500)
-        cases += structured() + random_cases(rs, 800) + rational_cases(rs, 1200, 'quick') + near_tie_cases(rs, 600) + malformed_cases(rs, 100)
+        cases += structured() + random_cases(rs, 800) + rational_cases(rs, 1200, 'quick') + near_tie_cases(rs, 600) + big_cases(rs, 'quick') + malformed_cases(rs, 100)
     if not ck.replay:     # homogeneous chunks: seeded shuffle, then one chunk per worker in the quick tier
         perm = np.random.RandomState(ck.seed + 12345).permutation(len(cases))
         cases = [cases[i] for i in perm]
@@ -614,12 +685,12 @@ def main():
         for (what, detail) in R['breaks']:
             ck.corr_break(what, detail)
         corr += R['corr']; bad += R['corr_bad']; spec_exact += R['spec_exact']
-    # a routine that (almost) never returns normally must not pass silently
+    # a timeout that survives the retry is a `does-not-return` violation (above); a routine that never returns normally is a break
     for f in ROUT_BIN:
-        calls = ck.dist.get('calls:' + f, 0); okc = ck.dist.get('ok:' + f, 0); to = ck.dist.get('timeout:' + f, 0)
-        if calls and not ck.replay and (okc == 0 or to > max(2, calls // 100)):
-            ck.corr_break('bct.%s does not return normally' % f, {'calls': calls, 'ok': okc, 'timeouts': to, 'exceptions': ck.dist.get('exc:' + f, 0),
-                                                                   'bound': 'at least one normal return and at most max(2, 1%) timeouts'})
+        calls = ck.dist.get('calls:' + f, 0); okc = ck.dist.get('ok:' + f, 0)
+        if calls and not ck.replay and okc == 0:
+            ck.corr_break('bct.%s never returns normally' % f, {'calls': calls, 'ok': okc, 'timeouts': ck.dist.get('timeout:' + f, 0),
+                                                               'exceptions': ck.dist.get('exc:' + f, 0)})
     # history / object reuse: g(A); edit A in place; f(A) must equal f(fresh copy) -- all ordered pairs of routines
     if not ck.replay:
         specs = probe_specs(rs, 160 if ck.tier == 'quick' else 1600)
